@@ -91,6 +91,7 @@ var exprSites = []exprSite{
 	{"psa_gapRttMs", "Association.processSelectiveAck", "assign", "rtt", 1, 2},
 	{"psa_cumNewer", "Association.processSelectiveAck", "cond", "chunkPayload.since.After", 0, 2},
 	{"psa_gapNewer", "Association.processSelectiveAck", "cond", "chunkPayload.since.After", 1, 2},
+	{"cumAck_allAcked", "Association.onCumulativeTSNAckPointAdvanced", "cond", "a.inflightQueue.size()", 0, 1},
 	// windowedMin
 	{"wmin_cutoff", "windowedMin.prune", "assign", "cutoff", 0, 1},
 	// onRackAfterSACK
@@ -103,6 +104,7 @@ var exprSites = []exprSite{
 	{"rack_initReoWnd", "Association.onRackAfterSACK", "cond", "base", 0, 1},
 	{"rack_dupInflates", "Association.onRackAfterSACK", "cond", "sack.duplicateTSN", 0, 1},
 	{"rack_reoInflated", "Association.onRackAfterSACK", "opassign", "a.rackReoWnd", 0, 1},
+	{"rack_keepInit", "Association.onRackAfterSACK", "assign", "a.rackKeepInflatedRecoveries", 0, 1},
 	{"rack_keepDecrements", "Association.onRackAfterSACK", "cond", "a.rackKeepInflatedRecoveries", 0, 2},
 	{"rack_keepExpired", "Association.onRackAfterSACK", "cond", "a.rackKeepInflatedRecoveries", 1, 2},
 	{"rack_reoAfterKeep", "Association.onRackAfterSACK", "assign", "a.rackReoWnd", 2, 4},
